@@ -4,6 +4,8 @@ CONSTANTS
   RollAt = 2
   NDel = 2
   NCons = 1
+  NGet = 0
+  MaxDel = 1
   FixStale = FALSE
 VIEW view
 INVARIANTS QuiescentOK HeadFlagOK
